@@ -143,6 +143,7 @@ class Scheduler(object):
         self.fingerprints = None  # set() when state counting is on
         self.abstract = None  # callable -> hashable, harness part of the fingerprint
         self.postmortem = False  # set while final() inspects the parked world: shim operations never switch
+        self.lenient = False  # replay on a tree other than the one the schedule was recorded on: out-of-range choices become 0
 
     # --- tracing ------------------------------------------------------------
     def _make_tracer(self):
@@ -245,9 +246,12 @@ class Scheduler(object):
                     self._end("diverged")
                     return
                 if c >= nopts:
-                    self.diverged = "choice %d out of range (%d options) at point %d" % (c, nopts, i)
-                    self._end("diverged")
-                    return
+                    if self.lenient:
+                        c = 0
+                    else:
+                        self.diverged = "choice %d out of range (%d options) at point %d" % (c, nopts, i)
+                        self._end("diverged")
+                        return
             else:
                 c = 0
             self.points.append(_Point(c, nopts, cur_enabled, len(opts) if fire is not None else -1, kind,
@@ -601,7 +605,7 @@ class Execution(object):
 
 
 def run_one(main, choices=(), expect=None, timer_budget=0, audited=(), step=None, final=None, abstract=None,
-            count_states=False, record_trace=False, opcode_funcs=()):
+            count_states=False, record_trace=False, opcode_funcs=(), lenient=False):
     """Runs `main()` as managed thread 0 under the given choice prefix (then choice 0).
 
     final(sched) is evaluated in the controlling thread while every managed
@@ -609,6 +613,7 @@ def run_one(main, choices=(), expect=None, timer_budget=0, audited=(), step=None
     global S
     s = Scheduler(choices, timer_budget, audited, step, expect, opcode_funcs)
     s.abstract = abstract
+    s.lenient = lenient
     s.record_trace = record_trace
     if count_states:
         s.fingerprints = set()
